@@ -123,17 +123,17 @@ CHECKS = {
             "(computed from the regex syntax tree) covers all code points outside XML 1.0 Char; ASCII-safe serialisation; "
             "tests == len(records), failure/error counters and children created under the same field and attached to the "
             "serialised tree, one record per "
-            "outcome; wrapper overrides record once and forward. Not decided: subtest class attribution, file names.",
+            "outcome; wrapper overrides record once and forward. constant indexes into split results are in range for every message (R6); the report file name is an injective function of the suite name (R7). Not decided: subtest class attribution.",
             "taint-to-sink rule with a statically computed character class + def-use", "4/C17"),
     'C18': ("Global state: teardown loops on every exit after the test phase (exception edges); for each catalogued "
             "mutator in a feature set-up hook the previous value is saved from the matching getter first and restored "
             "from that saved value in a teardown hook Runner.run calls; warnings filter changes only inside "
             "catch_warnings; std streams via the typestate exploration and the who-may-assign table; stray mutators "
-            "paired inside their function. Not decided: C-level profiler state, state changed by tests.",
+            "paired inside their function. a hook attribute the package replaces is put back before the restoring call through it (R2); std streams are the originals whenever a per-test layer hook is called, i.e. may raise and end the run (R7). Not decided: C-level profiler state, state changed by tests.",
             "save/mutate/restore pairing over resolved library calls + CFG must-pass-through", "4/C18"),
     'C19': ("Thread report: per-test snapshot freshness and same enumerator on both sides on every protocol word "
             "(typestate); the guard of the report is exactly alive(+), in-snapshot(-), any re.match ignore(-) and "
-            "nothing else; list passed whole with the test that ended; enumerate covers every ident of "
+            "nothing else; list passed whole with the test that ended; the ident table of enumerate() is built afresh per call (no cache across ident re-use); enumerate covers every ident of "
             "sys._current_frames, proxy equality by ident. Not decided: thread timing, identifier reuse.",
             "typestate exploration + guard-literal polarity", "4/C19"),
     'C20': ("Necessary conditions of Tarjan's algorithm on every path of sccs(): all reads of the neighbour map are total; "
